@@ -89,15 +89,18 @@ CLAIMED = {
             'csv, sqlite and pickle and compared field by field; emitted and corrupted documents are validated against the shipped schema by the jsonschema '
             'package and by the Lean validator over the regenerated schema, which must agree.',
             'Lean kernel; standard axioms; rapidjson / gzip / pandas / sqlite3 / pickle containers and 17-digit float text conversion by contract; tr_schema translator.', '5 C11'),
-    'C12': ('Lean 4 theorems about the dobs replica table with the zero marker (import(export) characterised for every merged list / measured subset / column; round trip under the no-zero hypothesis; zero-marked samples always dropped; members of a list are sub-lists of the merged rows) + model/impl correspondence on surviving configurations and restored samples + full round-trip comparison; one format-inherent known finding',
+    'C12': ('Lean 4 theorems about the dobs replica table with the zero marker (import(export) characterised for every merged list / measured subset / column; round trip under the no-zero hypothesis; zero-marked samples always dropped; members of a list are sub-lists of the merged rows) and about the pobs table (strided reads return the columns; write-then-read restores every accepted list of primary observables; lists on different configuration lists refused; returned central value = weighted mean of replica means) + model/impl correspondence (dobs: surviving configurations and restored samples; pobs: written blocks token for token, reader result) + full round-trip comparison; two format-inherent known findings',
             'Proof: for every duplicate-free merged configuration list, every observable measured on a sub-list of it and every column of written numbers the import '
             'returns exactly the measured configurations whose written number is not the marker 0, each with number + central value (c12_dobs_import_export); hence the '
             'round trip holds whenever no written number is exactly 0 (c12_dobs_roundtrip_partial) and a measured sample whose written number is 0 is always dropped '
             '(c12_dobs_zero_dropped - the recorded known finding, which is why the unconditional statement is refuted by c12_zero_marker_drops); every strictly increasing '
             'configuration list of a list member is a sub-list of the sorted union that forms the rows. The implementation is compared with the model on which '
             'configurations survive and on the restored samples for every member and replica, and every list of observables (different subsets, replicas, ensembles, '
-            'covariance inputs incl. cancelling gradients, count data with zeros, all separator modes, gz on/off, pobs) is compared field by field after the round trip.',
-            'Lean kernel; standard axioms; lxml / gzip and %1.16e / %1.14e text conversion by contract; covariance-input layout and the pobs format are covered by the field-by-field comparison only.', '5 C12'),
+            'covariance inputs incl. cancelling gradients, count data with zeros, all separator modes, gz on/off, pobs) is compared field by field after the round trip. '
+            'pobs: c12_pobs_columns (the strided reads of the flattened table are the configuration column and column a for every na and length), c12_pobs_roundtrip (every list the writer accepts whose '
+            'central values are the weighted means of the replica means is restored exactly, through the constructor model), c12_pobs_refuses_different_lists, c12_pobs_separator, '
+            'c12_pobs_value_is_weighted_mean (the second known finding in general: the file holds no central value).',
+            'Lean kernel; standard axioms; lxml / gzip and %1.16e / %1.14e text conversion by contract; covariance-input layout of dobs is covered by the field-by-field comparison only.', '5 C12'),
     'C13': ('Lean 4 theorems over the reals (leave-one-out, import inverts export, jackknife variance = naive variance, bootstrap means, linearity for a shared table, full column rank => samples determine the chain) + exact rational model/impl correspondence + Fraction oracle',
             'Proof: exported jackknife samples are the leave-one-out means with entry 0 the central value, import inverts export for every chain length >= 2, '
             'the jackknife variance equals the squared naive error, exported bootstrap samples are the means over the table rows and the export is linear '
